@@ -9,6 +9,8 @@ from . import common as C
 from . import simrun as R
 from . import xcut as X
 
+CLAIM_MORE = 'ALSO proved with sound extracted checkers applied to implementation outputs: fast_SIS / fast_nonMarkov_SIS (C09esis.v), the discrete-time simulators (C09disc.v: lock-step theorem, forest, dtx_okb) and Gillespie_simple_contagion (C09gen.v: entries are the induced events, the source had the inducing status).'
+
 CLAIM = dict(
     text="Machine-checked theorems (coq/Props/C09.v, closed under the global context) for Gillespie_SIR/SIS, every graph and every run: transmissions() is the source-less entries of the "
          "initially infected nodes followed by exactly one entry per infection event (same time, same target), in time order; replaying the event log, every entry goes along an edge "
